@@ -14,6 +14,7 @@ func init() {
 		Explanation: "Decided (structural necessary conditions, fscache.Cache): R1 the source of a read is the remote only on the edge where the buffer does not have the path, and the three boolean queries consult the buffer and the remote with the same-named query; R2 ReadDir issues both listings, fails only if both fail, keeps the remote entries and appends a buffer entry unless a remote entry with the same Name() is found by a scan that covers the whole remote listing from its first element; R3 Remove/RemoveAll reach, on every path, the buffer-presence test that removes the buffered node and the journal recorder (a second removal after a re-creation still clears the buffer); R4 every read-type method that can answer from the remote depends on the removal journals — necessary by an information argument: after Remove(p) of a remote-only p neither buffer nor remote changed, only the journal distinguishes 'removed' from 'untouched'; R5 the child views handed out by the cache (fshelper.SubFS, also nested) keep a separator-terminated base, so a view's own writes are visible at the same names through the view, its parent and the cache. " +
 			"R6 the cache's buffer is a memory filespace, so its check-then-create on the directory index must be atomic (same rule as C09.L4): otherwise two writers through the cache create one directory twice and a written file cannot be read back. " +
 			"Added in round 4: R1 also requires that Reader/ReadFile/Lstat (and their private stages) refuse an operation on the strength of an answer that includes the remote (the remote itself or a cache-level query that asks it) only where the buffer is known not to hold the path; R2 also requires that the merge of the two listings does not compare names with an ordering operator unless both listings are sorted first (the memory buffer lists in creation order). " +
+			"Added in round 5: R7 the read operations (ReadDir, IsExist, IsFile, IsDir, Reader, ReadFile, Lstat and what they call in the package) write nothing into the cache object: a memoised answer would have to be invalidated by every operation that can change it through any path (nested creates, removes of ancestors, child views). " +
 			"R4 is violated on today's tree by five constructs (known finding KF-2, listed in known_findings.json): removed remote files and directories stay visible until Commit. NOT decided: that answers equal 'remote + pending operations' on all interleavings; child views of the cache.",
 	})
 }
